@@ -7,4 +7,5 @@ INVARIANT ScoreLinear
 INVARIANT ScoreTable
 INVARIANT Mirror
 INVARIANT DPisOpt
+INVARIANT NoTiePruningSound
 CHECK_DEADLOCK FALSE
